@@ -365,11 +365,11 @@ def d10_5(ctx):
             if attr_path(t.ast) == "self._session" and g.branch_dominates(t, True, ur):
                 sess_guard = True
     ctx.check(sess_guard, ckey(f"{CD}:CIPDriver.close", "ur-guard"), ur.ast, "un-register only when a session exists", "un-register is not conditioned on an existing session")
-    # _forward_close clears the connected flag only on success
-    fcl = drv.methods["_forward_close"]
-    g2 = ctx.cfg(fcl)
-    stores = [n for n in g2.nodes if n.kind == "stmt" and isinstance(n.ast, ast.Assign) and any(attr_path(t) == "self._target_is_connected" for t in n.ast.targets)]
-    ctx.check(all(_under_truthy(g2, lambda e: atom_name(e) == "response", s) for s in stores), ckey(f"{CD}:CIPDriver._forward_close", "flag"), fcl, "connected flag cleared only on a successful Forward Close", "connected flag cleared without a successful Forward Close response")
+    # _forward_close clears the connected flag only on success: decided by folding it on a granted and a refused reply (D10.13) - an
+    # earlier form required the store to sit under `if response:` and alarmed on `if not response: ...; return False` first
+    from .driver import _session_rule
+
+    _session_rule(ctx)
 
 
 @rule(P, "D10.6", "T-ALLPATHS", floor=3)
